@@ -102,6 +102,30 @@ def forged(r, minted):
         p = r.randrange(22)
         s[p] = r.choice([ch for ch in B64 if ch != s[p]])
         return "val:" + "".join(s)
+    if x < 0.58:
+        # an equivalent SPELLING of a minted id: percent-encoding, URL-safe alphabet, dropped or extra padding, case change,
+        # surrounding blanks. None of these is the id itself, so none may reach the session.
+        from .monitors import gen_id
+        live = gen_id(r.randrange(max(1, minted)))
+        y = r.random()
+        if y < 0.35:
+            pos = sorted(r.sample(range(24), r.choice([1, 1, 2])))
+            v = "".join("%%%02X" % ord(ch) if i in pos else ch for i, ch in enumerate(live))
+        elif y < 0.5:
+            v = live.replace("+", "-").replace("/", "_")
+            if v == live:
+                v = live[:-2]
+        elif y < 0.6:
+            v = live[:-2]
+        elif y < 0.7:
+            v = live + "="
+        elif y < 0.8:
+            v = live.swapcase()
+        elif y < 0.9:
+            v = live.replace("=", "%3D")
+        else:
+            v = live + "%20"
+        return "val:" + qs(v)
     if x < 0.6:
         return "val:g%d" % (50_000 + r.randrange(1000))
     if x < 0.8:
@@ -133,6 +157,26 @@ def fam_C03(seed, n):
             sc.add("h set k0", "s" + hx("v%d" % c))
             sc.add("end")
         seu = 5 if se_units in (MAX, 0) else se_units
+        if se_units not in (MAX, 0, 1) and r.random() < 0.45:
+            # keep-alive pattern: accesses at intervals just below SessionExpiry, far beyond SessionExpiry since creation,
+            # with the session leaving the cache in between (purge, eviction by other sessions, idle sweep)
+            for _ in range(r.randint(3, 8)):
+                sc.add("wait", (seu - 1) * U)
+                for c in range(ns):
+                    req(sc, c, create=0)
+                    if r.random() < 0.3:
+                        sc.add("h lastaccess")
+                    sc.add("end")
+                y = r.random()
+                if y < 0.4:
+                    sc.add("purge")
+                elif y < 0.6:
+                    req(sc, 4)
+                    sc.add("end")
+                    req(sc, 5)
+                    sc.add("end")
+            out.append(("C03-%d" % i, sc.text()))
+            continue
         for _ in range(r.randint(4, 12)):
             x = r.random()
             if x < 0.4:
@@ -340,7 +384,8 @@ def fam_C07(seed, n):
             req(sc, 1)
             sc.add("end")
         if how == "destroy":
-            req(sc, 0)
+            # sometimes the request that destroys the session still carries a replaced id (in grace)
+            req(sc, 0, spec=("val:g%d" % r.randrange(k)) if (k > 0 and r.random() < 0.4) else "jar")
             sc.add("h destroy")
             sc.add("end")
         elif how == "expiry":
@@ -465,7 +510,7 @@ def fam_C10_base(seed, n):
         r = rnd_for(seed, "C10", i)
         codec = r.choice(["gob", "json"])
         U = unit(codec)
-        cfg = base_cfg(maxCache=r.choice([-1, -1, 1, 2, 0]), idExpiry=r.choice([MAX, 2 * U, 0]), grace=r.choice([5 * U, 50 * U]),
+        cfg = base_cfg(maxCache=r.choice([-1, -1, 1, 2, 0]), idExpiry=r.choice([MAX, 2 * U, 0]), grace=r.choice([0, 5 * U, 50 * U]),
                        cacheExpiry=r.choice([MAX, 2 * U]))
         sc = Script()
         emit_cfg(sc, codec, cfg)
